@@ -14,9 +14,10 @@ META = dict(
               "ranges, two MTUs) is judged against the assignment (monitor clause reported_handle)",
     level_note="(a),(b),(c) proved for all wf configurations without include declarations; with include_service<> the "
                "mapping is shifted (refuted, known finding); (d) refuted; (e) 'handles reported in discovery responses "
-               "are the assigned handles of the attributes they describe' is MONITORED on the implementation and TIED "
-               "(clause reported_handle), checked on the model for corpus configurations by vm_compute, NOT proved "
-               "for all configurations (C04_reported_handles_full is a Definition)")
+               "are the assigned handles of the attributes they describe' (clause reported_handle) is monitored on the "
+               "implementation and tied, and PROVED for the model for Read By Group Type, Find By Type Value and Find "
+               "Information (all wf configurations without includes, every state, every MTU, well formed requests); "
+               "NOT proved for Read By Type and for malformed request shapes (C04_reported_handles_full stays a Definition)")
 
 
 class C04(AttBase):
